@@ -91,24 +91,29 @@ Lemma refuted_a : wimpl wq_a = true /\ in_class 1 wq_a = true /\ ~ Permutation (
 Proof. split; [vm_compute; reflexivity|]. split; [vm_compute; reflexivity|]. apply not_perm_length. vm_compute. discriminate. Qed.
 Lemma refuted_b : wimpl wq_b = true /\ in_class 2 wq_b = true /\ ~ Permutation (wrun wds0 wq_b) (wspec wds0 wq_b).
 Proof. split; [vm_compute; reflexivity|]. split; [vm_compute; reflexivity|]. apply not_perm_length. vm_compute. discriminate. Qed.
-Lemma refuted_c : wimpl wq_c = true /\ in_class 3 wq_c = true /\ ~ Permutation (wrun wds1 wq_c) (wspec wds1 wq_c).
-Proof. split; [vm_compute; reflexivity|]. split; [vm_compute; reflexivity|]. apply not_perm_length. vm_compute. discriminate. Qed.
-Lemma refuted_d : wimpl wq_d = true /\ in_class 4 wq_d = true /\ ~ Permutation (wrun wds1 wq_d) (wspec wds1 wq_d).
-Proof. split; [vm_compute; reflexivity|]. split; [vm_compute; reflexivity|]. apply not_perm_length. vm_compute. discriminate. Qed.
-Lemma refuted_e : wimpl wq_e = true /\ in_class 5 wq_e = true /\ ~ Permutation (wrun wds0 wq_e) (wspec wds0 wq_e).
-Proof.
-  split; [vm_compute; reflexivity|]. split; [vm_compute; reflexivity|].
-  apply (not_perm_witness _ _ [(5%N, "x")]).
-  - vm_compute. right. left. reflexivity.
-  - vm_compute. intros [H|[H|[]]]; discriminate.
-Qed.
-
-(* every witness lies outside the hypotheses of pattern_correct *)
-Lemma witnesses_outside :
-  proved_fragment wq_a = false /\ proved_fragment wq_b = false /\ proved_fragment wq_c = false /\
-  agree (mk_view wds1 [] []) None (sel_where (q_sel wq_d)) = false /\
-  agree (mk_view wds0 [] []) None (sel_where (q_sel wq_e)) = false.
+(* the witnesses of the three repaired findings (1fdcd07: BIND, 56f413c: three-valued FILTER): inside the hypotheses of
+   pattern_correct now, and the model's answer is the algebra's; the pre-fix behaviour of the repaired component differs *)
+Lemma fixed_c :
+  wimpl wq_c = true /\ proved_fragment wq_c = true /\ agree (mk_view wds1 [] []) None (sel_where (q_sel wq_c)) = true /\
+  wrun wds1 wq_c = wspec wds1 wq_c /\ wspec wds1 wq_c = [] /\
+  ebind [BC "zz"] 1%N [(0%N, E "s1"); (1%N, E "s2")] = [] /\
+  bind_row [BC "zz"] 1%N [(0%N, E "s1"); (1%N, E "s2")] = [(0%N, E "s1"); (1%N, "zz")].
 Proof. vm_compute. repeat split; reflexivity. Qed.
+Lemma fixed_d :
+  wimpl wq_d = true /\ proved_fragment wq_d = true /\ agree (mk_view wds1 [] []) None (sel_where (q_sel wq_d)) = true /\
+  wrun wds1 wq_d = wspec wds1 wq_d /\ wspec wds1 wq_d = [] /\
+  let f := ENot (ECmp OEq 1%N (TC (E "s2"))) in let row := [(0%N, E "s1"); (2%N, "5")] in
+  cond_eval f row = false /\ holds f row = false /\ cond_eval_2v f row = true.
+Proof. vm_compute. repeat split; reflexivity. Qed.
+Lemma fixed_e :
+  wimpl wq_e = true /\ proved_fragment wq_e = true /\ agree (mk_view wds0 [] []) None (sel_where (q_sel wq_e)) = true /\
+  wrun wds0 wq_e = wspec wds0 wq_e /\ wspec wds0 wq_e = [[(0%N, "zz"); (5%N, "zzx")]; []] /\
+  ebind [BV 0%N; BC "x"] 5%N [] = [[]] /\ bind_row [BV 0%N; BC "x"] 5%N [] = [(5%N, "x")].
+Proof. vm_compute. repeat split; reflexivity. Qed.
+
+(* the two open witnesses lie outside the hypotheses of pattern_correct *)
+Lemma witnesses_outside : proved_fragment wq_a = false /\ proved_fragment wq_b = false.
+Proof. vm_compute. split; reflexivity. Qed.
 
 (* non-vacuity: a query with GRAPH ?g, UNION, VALUES/UNDEF, FILTER, BIND and a sub-select inside the proved fragment *)
 Definition wq_ok := mkq (PGroup [PGraph (TV 6%N) (PGroup [PBgp [(TV 0%N, TC (E "p1"), TV 1%N)]]);
@@ -143,9 +148,9 @@ Proof. vm_compute. repeat split; reflexivity. Qed.
 Lemma eval_scope : forall vw p active m x t, In m (eval vw active p) -> lookup m x = Some t -> In x (sposs p).
 Proof. intros vw p active m x t Hm L. exact (eval_poss vw p active m Hm x t L). Qed.
 
-Lemma const_bind_group : forall vw active args v G, barg_vars args = [] -> all_wf G -> (forall b, In b G -> lookup b v = None) ->
-  join G (eval vw active (PGroup [PBind args v])) = map (bind_row args v) G.
-Proof. intros vw active args v G Hc WG HG. change (eval vw active (PGroup [PBind args v])) with [extend args v []]. apply join_const_bind; auto. Qed.
+Lemma const_bind_group : forall vw active args v G, barg_vars args = [] -> all_wf G ->
+  join G (eval vw active (PGroup [PBind args v])) = flat_map (ebind args v) G.
+Proof. intros vw active args v G Hc WG. change (eval vw active (PGroup [PBind args v])) with [extend args v []]. apply join_const_bind; auto. Qed.
 
 Lemma select_star_id : forall vw active w m, In m (eval vw active w) -> restrict (star_cols w []) m = m.
 Proof.
